@@ -1,0 +1,82 @@
+//go:build verif
+
+package prism
+
+// Contracts for the verification machinery in /verif (vcgo). Comment-only.
+// ---- C15/C11: conversion workers. Step contracts: each iteration writes exactly its output pixel with the
+// target colour model's conversion of the input pixel (the per-pixel meaning of draw.Draw with Src).
+// Captured variables: inputImg, outputImg (freshly allocated with the input's Rect).
+
+//@ func ConvertImageToNRGBA$1
+//@   requires workers: 0 <= workerNum && workerNum < workerCount && workerCount <= 0x10000
+//@   requires same-bounds: outputImg.Rect.Min.X == inputImg.Rect.Min.X && outputImg.Rect.Min.Y == inputImg.Rect.Min.Y && outputImg.Rect.Max.X == inputImg.Rect.Max.X && outputImg.Rect.Max.Y == inputImg.Rect.Max.Y
+//@   requires sane-coordinates: -0x40000000 <= outputImg.Rect.Min.X && outputImg.Rect.Min.X <= outputImg.Rect.Max.X && outputImg.Rect.Max.X <= 0x40000000 && -0x40000000 <= outputImg.Rect.Min.Y && outputImg.Rect.Min.Y <= outputImg.Rect.Max.Y && outputImg.Rect.Max.Y <= 0x40000000
+//@   requires ycbcr-rep: true
+//@   loop 1 invariant [C15,C11] rows-of-this-worker: outputImg.Rect.Min.Y + workerNum <= i && (iter == 0 ==> i == outputImg.Rect.Min.Y + workerNum)
+//@   loop 1 step [C15,C11] next-row-of-this-worker: i == prev(i) + workerCount
+//@   loop 1 decreases outputImg.Rect.Max.Y + workerCount - i
+//@   loop 2 invariant [C15,C11] columns: outputImg.Rect.Min.X <= j && j <= outputImg.Rect.Max.X
+//@   loop 2 step [C15] pixel-written: outputImg.Pix[outputImg.PixOffset(prev(j), i)] == uint8(ret(0, prev(inputImg.YCbCrAt(j, i)).RGBA()) >> 8) && outputImg.Pix[outputImg.PixOffset(prev(j), i) + 1] == uint8(ret(1, prev(inputImg.YCbCrAt(j, i)).RGBA()) >> 8) && outputImg.Pix[outputImg.PixOffset(prev(j), i) + 2] == uint8(ret(2, prev(inputImg.YCbCrAt(j, i)).RGBA()) >> 8) && outputImg.Pix[outputImg.PixOffset(prev(j), i) + 3] == 255
+//@   loop 2 step [C15,C11] only-that-pixel: forall o int :: o < outputImg.PixOffset(prev(j), i) || o >= outputImg.PixOffset(prev(j), i) + 4 ==> outputImg.Pix[o] == prev(outputImg.Pix[o])
+//@   loop 2 step [C15] next-column: j == prev(j) + 1
+//@   loop 2 decreases outputImg.Rect.Max.X - j
+//@   ensures [C15] returns: true
+
+//@ func ConvertImageToRGBA$1
+//@   requires workers: 0 <= workerNum && workerNum < workerCount && workerCount <= 0x10000
+//@   requires same-bounds: outputImg.Rect.Min.X == inputImg.Rect.Min.X && outputImg.Rect.Min.Y == inputImg.Rect.Min.Y && outputImg.Rect.Max.X == inputImg.Rect.Max.X && outputImg.Rect.Max.Y == inputImg.Rect.Max.Y
+//@   requires sane-coordinates: -0x40000000 <= outputImg.Rect.Min.X && outputImg.Rect.Min.X <= outputImg.Rect.Max.X && outputImg.Rect.Max.X <= 0x40000000 && -0x40000000 <= outputImg.Rect.Min.Y && outputImg.Rect.Min.Y <= outputImg.Rect.Max.Y && outputImg.Rect.Max.Y <= 0x40000000
+//@   loop 1 invariant [C15,C11] rows-of-this-worker: outputImg.Rect.Min.Y + workerNum <= i && (iter == 0 ==> i == outputImg.Rect.Min.Y + workerNum)
+//@   loop 1 step [C15,C11] next-row-of-this-worker: i == prev(i) + workerCount
+//@   loop 1 decreases outputImg.Rect.Max.Y + workerCount - i
+//@   loop 2 invariant [C15,C11] columns: outputImg.Rect.Min.X <= j && j <= outputImg.Rect.Max.X
+//@   loop 2 step [C15] pixel-written: outputImg.Pix[outputImg.PixOffset(prev(j), i)] == uint8(prev(inputImg.RGBA64At(j, i)).R >> 8) && outputImg.Pix[outputImg.PixOffset(prev(j), i) + 1] == uint8(prev(inputImg.RGBA64At(j, i)).G >> 8) && outputImg.Pix[outputImg.PixOffset(prev(j), i) + 2] == uint8(prev(inputImg.RGBA64At(j, i)).B >> 8) && outputImg.Pix[outputImg.PixOffset(prev(j), i) + 3] == uint8(prev(inputImg.RGBA64At(j, i)).A >> 8)
+//@   loop 2 step [C15,C11] only-that-pixel: forall o int :: o < outputImg.PixOffset(prev(j), i) || o >= outputImg.PixOffset(prev(j), i) + 4 ==> outputImg.Pix[o] == prev(outputImg.Pix[o])
+//@   loop 2 step [C15] next-column: j == prev(j) + 1
+//@   loop 2 decreases outputImg.Rect.Max.X - j
+//@   ensures [C15] returns: true
+
+//@ func ConvertImageToRGBA64$1
+//@   requires workers: 0 <= workerNum && workerNum < workerCount && workerCount <= 0x10000
+//@   requires same-bounds: outputImg.Rect.Min.X == inputImg.Rect.Min.X && outputImg.Rect.Min.Y == inputImg.Rect.Min.Y && outputImg.Rect.Max.X == inputImg.Rect.Max.X && outputImg.Rect.Max.Y == inputImg.Rect.Max.Y
+//@   requires sane-coordinates: -0x40000000 <= outputImg.Rect.Min.X && outputImg.Rect.Min.X <= outputImg.Rect.Max.X && outputImg.Rect.Max.X <= 0x40000000 && -0x40000000 <= outputImg.Rect.Min.Y && outputImg.Rect.Min.Y <= outputImg.Rect.Max.Y && outputImg.Rect.Max.Y <= 0x40000000
+//@   loop 1 invariant [C15,C11] rows-of-this-worker: outputImg.Rect.Min.Y + workerNum <= i && (iter == 0 ==> i == outputImg.Rect.Min.Y + workerNum)
+//@   loop 1 step [C15,C11] next-row-of-this-worker: i == prev(i) + workerCount
+//@   loop 1 decreases outputImg.Rect.Max.Y + workerCount - i
+//@   loop 2 invariant [C15,C11] columns: outputImg.Rect.Min.X <= j && j <= outputImg.Rect.Max.X
+//@   loop 2 step [C15] pixel-written: be16(outputImg.Pix, outputImg.PixOffset(prev(j), i)) == uint16(ret(0, prev(inputImg.NRGBAAt(j, i)).RGBA())) && be16(outputImg.Pix, outputImg.PixOffset(prev(j), i) + 2) == uint16(ret(1, prev(inputImg.NRGBAAt(j, i)).RGBA())) && be16(outputImg.Pix, outputImg.PixOffset(prev(j), i) + 4) == uint16(ret(2, prev(inputImg.NRGBAAt(j, i)).RGBA())) && be16(outputImg.Pix, outputImg.PixOffset(prev(j), i) + 6) == uint16(ret(3, prev(inputImg.NRGBAAt(j, i)).RGBA()))
+//@   loop 2 step [C15,C11] only-that-pixel: forall o int :: o < outputImg.PixOffset(prev(j), i) || o >= outputImg.PixOffset(prev(j), i) + 8 ==> outputImg.Pix[o] == prev(outputImg.Pix[o])
+//@   loop 2 step [C15] next-column: j == prev(j) + 1
+//@   loop 2 decreases outputImg.Rect.Max.X - j
+//@   ensures [C15] returns: true
+
+//@ func ConvertImageToRGBA64$2
+//@   requires workers: 0 <= workerNum && workerNum < workerCount && workerCount <= 0x10000
+//@   requires same-bounds: outputImg.Rect.Min.X == inputImg.Rect.Min.X && outputImg.Rect.Min.Y == inputImg.Rect.Min.Y && outputImg.Rect.Max.X == inputImg.Rect.Max.X && outputImg.Rect.Max.Y == inputImg.Rect.Max.Y
+//@   requires sane-coordinates: -0x40000000 <= outputImg.Rect.Min.X && outputImg.Rect.Min.X <= outputImg.Rect.Max.X && outputImg.Rect.Max.X <= 0x40000000 && -0x40000000 <= outputImg.Rect.Min.Y && outputImg.Rect.Min.Y <= outputImg.Rect.Max.Y && outputImg.Rect.Max.Y <= 0x40000000
+//@   loop 1 invariant [C15,C11] rows-of-this-worker: outputImg.Rect.Min.Y + workerNum <= i && (iter == 0 ==> i == outputImg.Rect.Min.Y + workerNum)
+//@   loop 1 step [C15,C11] next-row-of-this-worker: i == prev(i) + workerCount
+//@   loop 1 decreases outputImg.Rect.Max.Y + workerCount - i
+//@   loop 2 invariant [C15,C11] columns: outputImg.Rect.Min.X <= j && j <= outputImg.Rect.Max.X
+//@   loop 2 step [C15] pixel-written: be16(outputImg.Pix, outputImg.PixOffset(prev(j), i)) == uint16(ret(0, prev(inputImg.RGBAAt(j, i)).RGBA())) && be16(outputImg.Pix, outputImg.PixOffset(prev(j), i) + 2) == uint16(ret(1, prev(inputImg.RGBAAt(j, i)).RGBA())) && be16(outputImg.Pix, outputImg.PixOffset(prev(j), i) + 4) == uint16(ret(2, prev(inputImg.RGBAAt(j, i)).RGBA())) && be16(outputImg.Pix, outputImg.PixOffset(prev(j), i) + 6) == uint16(ret(3, prev(inputImg.RGBAAt(j, i)).RGBA()))
+//@   loop 2 step [C15,C11] only-that-pixel: forall o int :: o < outputImg.PixOffset(prev(j), i) || o >= outputImg.PixOffset(prev(j), i) + 8 ==> outputImg.Pix[o] == prev(outputImg.Pix[o])
+//@   loop 2 step [C15] next-column: j == prev(j) + 1
+//@   loop 2 decreases outputImg.Rect.Max.X - j
+//@   ensures [C15] returns: true
+
+//@ func ConvertImageToRGBA64$3
+//@   requires workers: 0 <= workerNum && workerNum < workerCount && workerCount <= 0x10000
+//@   requires same-bounds: outputImg.Rect.Min.X == inputImg.Rect.Min.X && outputImg.Rect.Min.Y == inputImg.Rect.Min.Y && outputImg.Rect.Max.X == inputImg.Rect.Max.X && outputImg.Rect.Max.Y == inputImg.Rect.Max.Y
+//@   requires sane-coordinates: -0x40000000 <= outputImg.Rect.Min.X && outputImg.Rect.Min.X <= outputImg.Rect.Max.X && outputImg.Rect.Max.X <= 0x40000000 && -0x40000000 <= outputImg.Rect.Min.Y && outputImg.Rect.Min.Y <= outputImg.Rect.Max.Y && outputImg.Rect.Max.Y <= 0x40000000
+//@   loop 1 invariant [C15,C11] rows-of-this-worker: outputImg.Rect.Min.Y + workerNum <= i && (iter == 0 ==> i == outputImg.Rect.Min.Y + workerNum)
+//@   loop 1 step [C15,C11] next-row-of-this-worker: i == prev(i) + workerCount
+//@   loop 1 decreases outputImg.Rect.Max.Y + workerCount - i
+//@   loop 2 invariant [C15,C11] columns: outputImg.Rect.Min.X <= j && j <= outputImg.Rect.Max.X
+//@   loop 2 step [C15] pixel-written: be16(outputImg.Pix, outputImg.PixOffset(prev(j), i)) == uint16(ret(0, prev(inputImg.YCbCrAt(j, i)).RGBA())) && be16(outputImg.Pix, outputImg.PixOffset(prev(j), i) + 2) == uint16(ret(1, prev(inputImg.YCbCrAt(j, i)).RGBA())) && be16(outputImg.Pix, outputImg.PixOffset(prev(j), i) + 4) == uint16(ret(2, prev(inputImg.YCbCrAt(j, i)).RGBA())) && be16(outputImg.Pix, outputImg.PixOffset(prev(j), i) + 6) == 65535
+//@   loop 2 step [C15,C11] only-that-pixel: forall o int :: o < outputImg.PixOffset(prev(j), i) || o >= outputImg.PixOffset(prev(j), i) + 8 ==> outputImg.Pix[o] == prev(outputImg.Pix[o])
+//@   loop 2 step [C15] next-column: j == prev(j) + 1
+//@   loop 2 decreases outputImg.Rect.Max.X - j
+//@   ensures [C15] returns: true
+
+// YCbCrToRGB (8-bit) agrees with the high byte of YCbCr.RGBA() (16-bit), the value draw.Draw stores.
+//@ lemma [C15] ycbcr-8bit-is-high-byte-of-16bit mode=ieee (y uint8, cb uint8, cr uint8): ret(0, color.YCbCrToRGB(y, cb, cr)) == uint8(ret(0, color.YCbCr{y, cb, cr}.RGBA()) >> 8) && ret(1, color.YCbCrToRGB(y, cb, cr)) == uint8(ret(1, color.YCbCr{y, cb, cr}.RGBA()) >> 8) && ret(2, color.YCbCrToRGB(y, cb, cr)) == uint8(ret(2, color.YCbCr{y, cb, cr}.RGBA()) >> 8)
